@@ -25,6 +25,7 @@ const (
 	endRunaway      // loop / recursion / instruction budget exceeded
 	endInconclusive // unsupported feature or solver unknown
 	endAbandon      // path cut after a recorded violation
+	endBoundCut     // path left the stated enumeration bound (count/length too large to enumerate)
 )
 
 type pathEnd struct {
@@ -41,13 +42,28 @@ type Violation struct {
 	Func   string   // function containing the site
 	Stmt   string   // normalised source text of the failing statement, if available
 	Detail string   // free text
+	Stack  []Frame  // call stack at the failure, innermost first (function, site, statement)
 	Script []uint64 // nondet results in call order (replay input)
+	Alt    [][]uint64 // further witnesses of the same site (other paths), tried if the first does not reproduce
 	Notes  []string // harness notes on this path
 	Count  int      // number of paths with the same signature
 }
 
+type Frame struct {
+	Func string
+	Site string
+	Stmt string
+}
+
 func (v *Violation) Sig() string {
-	return v.Kind + "|" + v.ID + "|" + v.Func + "|" + v.Stmt
+	s := v.Kind + "|" + v.ID + "|" + v.Func + "|" + v.Stmt
+	for i, f := range v.Stack {
+		if i >= 4 {
+			break
+		}
+		s += "|" + f.Func + "@" + f.Stmt
+	}
+	return s
 }
 
 type decision struct {
@@ -90,6 +106,8 @@ type Stats struct {
 	SolverRouted  int
 	Allocs        int
 	RewriteChecks int
+	BoundCuts     int
+	LemmaQueries  int
 }
 
 type Options struct {
@@ -135,21 +153,23 @@ type Engine struct {
 	permute   bool
 	loopBud   int
 	allocLim  int64
+	enumBound int
 	inBase    bool
 	tags      map[string]bool
 
-	globals   map[*ssa.Global]*Object
-	finfo     map[*ssa.Function]*funcInfo
-	intrinsic map[string]intrinsicFn
-	initDone  map[*ssa.Package]bool
-	curFn     []*ssa.Function
-	curPos    []ssa.Instruction
-	fset      posResolver
-	srcCache  map[string][]string
+	globals      map[*ssa.Global]*Object
+	finfo        map[*ssa.Function]*funcInfo
+	intrinsic    map[string]intrinsicFn
+	initDone     map[*ssa.Package]bool
+	curFn        []*ssa.Function
+	curPos       []ssa.Instruction
+	fset         posResolver
+	srcCache     map[string][]string
 	InitWarnings []string
 	MaxWitness   int
-	rwSeen    map[[2]int]bool
-	rwQueue   [][2]*term.Term
+	lemmaCache   map[string]bool
+	rwSeen       map[[2]int]bool
+	rwQueue      [][2]*term.Term
 }
 
 type posResolver interface {
@@ -189,13 +209,14 @@ func New(prog *ssa.Program, opt Options) (*Engine, error) {
 		}
 	}
 	e := &Engine{Prog: prog, Opt: opt, S: s,
-		Viol:      map[string]*Violation{},
-		globals:   map[*ssa.Global]*Object{},
-		finfo:     map[*ssa.Function]*funcInfo{},
-		initDone:  map[*ssa.Package]bool{},
-		srcCache:  map[string][]string{},
-		rwSeen:    map[[2]int]bool{},
-		intrinsic: map[string]intrinsicFn{},
+		Viol:       map[string]*Violation{},
+		globals:    map[*ssa.Global]*Object{},
+		finfo:      map[*ssa.Function]*funcInfo{},
+		initDone:   map[*ssa.Package]bool{},
+		srcCache:   map[string][]string{},
+		rwSeen:     map[[2]int]bool{},
+		lemmaCache: map[string]bool{},
+		intrinsic:  map[string]intrinsicFn{},
 	}
 	e.Stats.PathsByEnd = map[string]int{}
 	e.Stats.InconReasons = map[string]int{}
@@ -353,6 +374,7 @@ func (e *Engine) resetPath() {
 	e.permute = e.Opt.PermuteMaps
 	e.loopBud = e.Opt.LoopBudget
 	e.allocLim = e.Opt.AllocLimit
+	e.enumBound = e.Opt.EnumCap
 	e.curFn = e.curFn[:0]
 	e.curPos = e.curPos[:0]
 	e.tags = nil
@@ -423,6 +445,9 @@ func (e *Engine) runOnePath(fn *ssa.Function) {
 		}
 	case endAbandon:
 		e.Stats.PathsByEnd["abandoned"]++
+	case endBoundCut:
+		e.Stats.PathsByEnd["bound-cut"]++
+		e.Stats.BoundCuts++
 	}
 }
 
@@ -788,6 +813,22 @@ func (e *Engine) concretize(t *term.Term, signed bool, what string) int64 {
 		}
 		return int64(t.Val)
 	}
+	// values beyond the enumeration bound are outside the explored space: the
+	// path that takes them is cut and counted (never reported as a pass)
+	if e.enumBound > 0 && t.W > 1 {
+		over := term.Cmp(term.OpUlt, term.Const(t.W, uint64(e.enumBound)), t)
+		if signed {
+			// negative values are handled by callers as out-of-range; treat as over
+			over = term.Or(over, term.Cmp(term.OpSlt, t, term.Const(t.W, 0)))
+		}
+		if e.fork([]*term.Term{term.Not(over), over}) == 1 {
+			panic(pathEnd{kind: endBoundCut, msg: "enumeration bound exceeded: " + what, site: e.where()})
+		}
+	}
+	return e.concretizeNoBound(t, signed, what)
+}
+
+func (e *Engine) concretizeNoBound(t *term.Term, signed bool, what string) int64 {
 	conv := func(v uint64) int64 {
 		if signed {
 			return term.Const(t.W, v).SignedVal()
@@ -945,15 +986,33 @@ func (e *Engine) modelS2(extra ...*term.Term) ([]uint64, bool) {
 func (e *Engine) recordViolation(kind, id, site, detail string, extra ...*term.Term) {
 	v := &Violation{Kind: kind, ID: id, Site: site, Func: e.whereFunc(), Detail: detail, Count: 1}
 	v.Stmt = e.stmtAt(site)
+	for i := len(e.curFn) - 1; i >= 0 && len(v.Stack) < 12; i-- {
+		f := Frame{Func: e.curFn[i].String()}
+		if i < len(e.curPos) && e.curPos[i] != nil {
+			if p := e.curPos[i].Pos(); p.IsValid() {
+				pos := e.Prog.Fset.Position(p)
+				f.Site = fmt.Sprintf("%s:%d", pos.Filename, pos.Line)
+				f.Stmt = e.stmtAt(f.Site)
+			}
+		}
+		v.Stack = append(v.Stack, f)
+	}
 	if i := strings.LastIndex(v.Func, "/"); i >= 0 {
 		v.Func = v.Func[i+1:]
 	}
 	sig := v.Sig()
 	if old, ok := e.Viol[sig]; ok {
 		old.Count++
+		if (kind == "runaway" || kind == "alloc") && len(old.Alt) < 6 {
+			// keep a few more witnesses: which one manifests natively depends on how
+			// large the offending count can be made on that path
+			if sc, ok := e.maxModel(kind, extra); ok {
+				old.Alt = append(old.Alt, sc)
+			}
+		}
 		return
 	}
-	sc, ok := e.model(extra...)
+	sc, ok := e.maxModel(kind, extra)
 	if !ok {
 		e.inconclusive("no-model-for-violation:" + kind)
 		return
@@ -985,6 +1044,28 @@ func (e *Engine) stmtAt(site string) string {
 		return ""
 	}
 	return strings.TrimSpace(lines[line-1])
+}
+
+// maxModel returns a model of the path; for resource violations the symbolic
+// inputs are greedily driven towards their largest values while the path
+// stays feasible, so that the native replay manifests unmistakably.
+func (e *Engine) maxModel(kind string, extra []*term.Term) ([]uint64, bool) {
+	if kind == "runaway" || kind == "alloc" {
+		for _, n := range e.nondets {
+			if !n.isSym || n.t.W == 0 || len(extra) > 12 {
+				continue
+			}
+			c := term.Eq(n.t, term.Const(n.t.W, ^uint64(0)))
+			all := c
+			for _, x := range extra {
+				all = term.And(all, x)
+			}
+			if ok, sure := e.feasible(all); ok && sure {
+				extra = append(extra, c)
+			}
+		}
+	}
+	return e.model(extra...)
 }
 
 // assertProp checks an assertion on the current path. Non-constant
@@ -1044,20 +1125,36 @@ func (e *Engine) assertProp(id string, c *term.Term) {
 }
 
 func (e *Engine) checkRewrites() {
-	t0 := time.Now()
-	_ = t0
+	old := term.RewriteHook
+	term.RewriteHook = nil
+	defer func() { term.RewriteHook = old }()
+	neq := func(a, b *term.Term) *term.Term {
+		// build the disequality without simplification
+		saveS, saveR := term.Simplify, term.Rewrite
+		term.Rewrite = false
+		defer func() { term.Simplify, term.Rewrite = saveS, saveR }()
+		return term.Not(term.Eq(a, b))
+	}
 	for _, p := range e.rwQueue {
 		raw, res := p[0], p[1]
-		var q *term.Term
-		old := term.RewriteHook
-		term.RewriteHook = nil
-		if raw.W == 0 {
-			q = term.Not(term.Eq(raw, res))
-		} else {
-			q = term.Ne(raw, res)
-		}
-		term.RewriteHook = old
 		e.Stats.RewriteChecks++
+		// try the generalised lemma first (cached by its text)
+		araw, ares := term.Abstract(raw, res, 3)
+		key := araw.String() + " => " + ares.String()
+		if ok, seen := e.lemmaCache[key]; seen && ok {
+			continue
+		} else if !seen {
+			q := neq(araw, ares)
+			proved := q.IsFalse() || e.S.CheckWith(q) == smt.Unsat
+			e.lemmaCache[key] = proved
+			e.Stats.LemmaQueries++
+			if proved {
+				continue
+			}
+		}
+		// the generalisation lost something the rule depends on: check the instance
+		q := neq(raw, res)
+		e.Stats.LemmaQueries++
 		if q.IsFalse() {
 			continue
 		}
